@@ -29,6 +29,7 @@ CLAIMED = {
     'C14': ('TLC trace validation of all pairs x derivations x follow-up edits with every live handle logged (Frame clause) vs Definition.tla', '6/C14'),
     'C16': ('TLC trace validation vs Junctors.tla (occurring truth-value combinations)', '6/C16'),
     'C18': ('TLC trace validation vs generator sets in shortlex order', '6/C18'),
+    'C19': ('TLC enumerates every single/double corruption of every small valid input (ValSys.tla); outcomes of the real constructors validated by TLC vs Validation.tla', '6/C19'),
     'C20': ('TLC trace validation of the parsed DOT body vs Drawing.tla', '6/C20'),
 }
 
@@ -37,7 +38,6 @@ NOT_YET = {
     'C12': 'not built yet in this revision (text-format traces and TLA+ writers are next in DESIGN.md section 12)',
     'C15': 'not built yet in this revision (relational trace clauses are next in DESIGN.md section 12)',
     'C17': 'not built yet in this revision (joint multi-seed trace validation is next in DESIGN.md section 12)',
-    'C19': 'not built yet in this revision (Validation.tla corruption enumeration is next in DESIGN.md section 12)',
 }
 
 
@@ -94,6 +94,11 @@ TEXTS = {
             'from every state on the real Definition, every 2-step path on a sample (all in the thorough tier) and '
             'thousands of random histories; TLC validates every event against Apply() of Definition.tla: outcome '
             'class, return value, resulting triple, unchanged-on-error, d == Definition(*d), row shape.'),
+    'C19': ('Spec -> code -> spec: the inputs are the reachable states of ValSys.tla (valid seeds x at most two '
+            'corruption steps, enumerated exhaustively by TLC, which also checks that every seed is valid and that '
+            'the document and triple predicates agree); each is fed to the real Context(...) / Context.fromdict(...) '
+            'and TLC validates outcome (ok iff well formed, otherwise exactly ValueError) and read-back against '
+            'Validation.tla; seeded random corruptions of larger inputs go through the same trace spec.'),
     'C14': ('Design: derivation laws (involutions, union/intersection laws, take-all identity) are model checked on '
             'every reachable definition of DefSys.tla. Conformance: all ordered pairs of small definitions x every '
             'derivation choice x single follow-up edits on source, operand or result, plus random multi-handle '
